@@ -26,11 +26,18 @@ use std::sync::Arc;
 trait ItemLike: TreapItem + TreapItemSized + std::fmt::Debug + Send + 'static {
     fn make(id: u32) -> Self;
     fn id(&self) -> u32;
+    fn val(&self) -> i64;
+    fn sum(&self) -> i64;
+    /// lazily adds `d` to every element of the subtree this item is the root of
+    fn attach(&mut self, d: i64);
 }
 
 struct Item {
     id: u32,
     sz: usize,
+    val: i64,
+    sum: i64,
+    add: i64,
 }
 impl std::fmt::Debug for Item {
     fn fmt(&self, f: &mut std::fmt::Formatter<'_>) -> std::fmt::Result {
@@ -40,6 +47,18 @@ impl std::fmt::Debug for Item {
 impl TreapItem for Item {
     fn update(&mut self, l: Option<&Self>, r: Option<&Self>) {
         self.sz = l.map(|i| i.sz).unwrap_or(0) + r.map(|i| i.sz).unwrap_or(0) + 1;
+        self.sum = l.map(|i| i.sum).unwrap_or(0) + r.map(|i| i.sum).unwrap_or(0) + self.val;
+    }
+    fn push(&mut self, l: Option<&mut Self>, r: Option<&mut Self>) {
+        if self.add != 0 {
+            if let Some(l) = l {
+                l.attach(self.add);
+            }
+            if let Some(r) = r {
+                r.attach(self.add);
+            }
+            self.add = 0;
+        }
     }
 }
 impl TreapItemSized for Item {
@@ -49,10 +68,22 @@ impl TreapItemSized for Item {
 }
 impl ItemLike for Item {
     fn make(id: u32) -> Self {
-        Item { id, sz: 1 }
+        let val = (id % 1000) as i64;
+        Item { id, sz: 1, val, sum: val, add: 0 }
     }
     fn id(&self) -> u32 {
         self.id
+    }
+    fn val(&self) -> i64 {
+        self.val
+    }
+    fn sum(&self) -> i64 {
+        self.sum
+    }
+    fn attach(&mut self, d: i64) {
+        self.val += d;
+        self.sum += d * self.sz as i64;
+        self.add += d;
     }
 }
 
@@ -60,6 +91,9 @@ struct BigItem {
     id: u32,
     sz: usize,
     pad: [u64; 5],
+    val: i64,
+    sum: i64,
+    add: i64,
 }
 impl std::fmt::Debug for BigItem {
     fn fmt(&self, f: &mut std::fmt::Formatter<'_>) -> std::fmt::Result {
@@ -70,6 +104,18 @@ impl TreapItem for BigItem {
     fn update(&mut self, l: Option<&Self>, r: Option<&Self>) {
         self.sz = l.map(|i| i.sz).unwrap_or(0) + r.map(|i| i.sz).unwrap_or(0) + 1;
         self.pad[0] = self.sz as u64;
+        self.sum = l.map(|i| i.sum).unwrap_or(0) + r.map(|i| i.sum).unwrap_or(0) + self.val;
+    }
+    fn push(&mut self, l: Option<&mut Self>, r: Option<&mut Self>) {
+        if self.add != 0 {
+            if let Some(l) = l {
+                l.attach(self.add);
+            }
+            if let Some(r) = r {
+                r.attach(self.add);
+            }
+            self.add = 0;
+        }
     }
 }
 impl TreapItemSized for BigItem {
@@ -79,10 +125,22 @@ impl TreapItemSized for BigItem {
 }
 impl ItemLike for BigItem {
     fn make(id: u32) -> Self {
-        BigItem { id, sz: 1, pad: [id as u64; 5] }
+        let val = (id % 1000) as i64;
+        BigItem { id, sz: 1, pad: [id as u64; 5], val, sum: val, add: 0 }
     }
     fn id(&self) -> u32 {
         self.id
+    }
+    fn val(&self) -> i64 {
+        self.val
+    }
+    fn sum(&self) -> i64 {
+        self.sum
+    }
+    fn attach(&mut self, d: i64) {
+        self.val += d;
+        self.sum += d * self.sz as i64;
+        self.add += d;
     }
 }
 
@@ -162,6 +220,9 @@ fn history_t<T: ItemLike>(tid: usize, hseed: u64, ops: usize, long: usize, bulk:
     let mut rng = hseed ^ ((tid as u64 + 1) << 32);
     let mut t: Treap<T> = Treap::new();
     let mut model: Vec<u32> = Vec::new();
+    // current value of every element by id (range additions are applied eagerly here)
+    let mut vals: std::collections::BTreeMap<u32, i64> = std::collections::BTreeMap::new();
+    let val_of = |vals: &std::collections::BTreeMap<u32, i64>, id: u32| vals.get(&id).copied().unwrap_or((id % 1000) as i64);
     let mut out = ThreadOut { prios: Vec::new(), stamps: Vec::new(), func: String::new(), prints: Vec::new() };
     // optional staggered start: some threads begin a few scheduling points later
     for _ in 0..stagger * tid {
@@ -254,10 +315,11 @@ fn history_t<T: ItemLike>(tid: usize, hseed: u64, ops: usize, long: usize, bulk:
             match r % 10 {
                 6 => {
                     let pos = ((r / 100) as usize) % len;
-                    let got = t.remove_at(pos).id();
+                    let removed = t.remove_at(pos);
+                    let (got, gv) = (removed.id(), removed.val());
                     let want = model.remove(pos);
-                    if got != want && mismatch.is_none() {
-                        mismatch = Some(format!("step {}: remove_at({}) gave {} expected {}", step, pos, got, want));
+                    if (got != want || gv != val_of(&vals, want)) && mismatch.is_none() {
+                        mismatch = Some(format!("step {}: remove_at({}) gave {} (value {}) expected {} (value {})", step, pos, got, gv, want, val_of(&vals, want)));
                     }
                 }
                 7 if (r / 10) % 2 == 0 => {
@@ -291,6 +353,30 @@ fn history_t<T: ItemLike>(tid: usize, hseed: u64, ops: usize, long: usize, bulk:
                     if !t.is_empty() && mismatch.is_none() {
                         mismatch = Some(format!("step {}: fresh treap not empty", step));
                     }
+                }
+                9 if (r / 10) % 4 != 3 => {
+                    // lazy range addition / range sum on [lo, hi]: split out, touch the root, merge back
+                    let (a, b) = (((r / 100) as usize) % len, ((r / 100_000) as usize) % len);
+                    let (lo, hi) = (a.min(b), a.max(b));
+                    let (left, rest) = std::mem::replace(&mut t, Treap::new()).split_at(lo);
+                    let (mut mid, right) = rest.split_at(hi + 1 - lo);
+                    if (r / 10) % 4 == 1 {
+                        let d = ((r >> 40) % 19) as i64 - 9;
+                        if let Some(root) = mid.root_mut() {
+                            root.attach(d);
+                        }
+                        for id in &model[lo..=hi] {
+                            let v = val_of(&vals, *id) + d;
+                            vals.insert(*id, v);
+                        }
+                    } else {
+                        let want: i64 = model[lo..=hi].iter().map(|id| val_of(&vals, *id)).sum();
+                        let got = mid.root().map(|i| i.sum()).unwrap_or(0);
+                        if (got != want || mid.size() != hi + 1 - lo) && mismatch.is_none() {
+                            mismatch = Some(format!("step {}: sum of [{}, {}] is {} (size {}) expected {}", step, lo, hi, got, mid.size(), want));
+                        }
+                    }
+                    t = Treap::merge(Treap::merge(left, mid), right);
                 }
                 _ => {
                     if t.size() != model.len() && mismatch.is_none() {
@@ -333,9 +419,10 @@ fn history_t<T: ItemLike>(tid: usize, hseed: u64, ops: usize, long: usize, bulk:
     if bulk > 0 {
         dump(&t, &mut out.prints);
     }
-    let got: Vec<u32> = t.collect().into_iter().map(|i| i.id()).collect();
-    if got != model && mismatch.is_none() {
-        mismatch = Some(format!("final collect {:?} expected {:?}", got, model));
+    let got: Vec<(u32, i64)> = t.collect().into_iter().map(|i| (i.id(), i.val())).collect();
+    let want: Vec<(u32, i64)> = model.iter().map(|id| (*id, val_of(&vals, *id))).collect();
+    if got != want && mismatch.is_none() {
+        mismatch = Some(format!("final collect {:?} expected {:?}", got, want));
     }
     out.func = match mismatch {
         None => format!("ok {} elements", model.len()),
